@@ -62,6 +62,18 @@ func inlineImports(files []impFile, i int, chain []int) string {
 	var sb strings.Builder
 	sb.WriteString(f.pre)
 	for _, im := range f.imports {
+		cyclic := false
+		for _, c := range chain {
+			if c == im.target {
+				cyclic = true
+			}
+		}
+		if cyclic {
+			// "If we encounter a stylesheet in our parent chain with the same URL,
+			// then just bail" (WebKit; the specification is silent): the import
+			// contributes nothing, not even the layer its layer() would name
+			continue
+		}
 		inner := inlineImports(files, im.target, chain)
 		switch {
 		case im.layer == "layer":
@@ -119,14 +131,35 @@ func genImportGraph(r *Rng, hist map[string]int) []impFile {
 				hist["imp-media"]++
 			}
 			f.imports = append(f.imports, im)
+			if r.Chance(35) {
+				// the same file again with related conditions (a different file may sit in between)
+				hist["imp-related-double"]++
+				if r.Chance(50) {
+					f.imports = append(f.imports, impRef{target: r.Intn(n)})
+				}
+				im2 := im
+				switch r.Intn(6) {
+				case 0:
+					im2.supp = ""
+				case 1:
+					im2.media = ""
+				case 2:
+					im2.supp = []string{"display: grid", "gap: 1px"}[r.Intn(2)]
+				case 3:
+					im2.media = []string{"screen", "print"}[r.Intn(2)]
+				case 4:
+					im2.layer = ""
+				}
+				f.imports = append(f.imports, im2)
+			}
 		}
 		var sb strings.Builder
 		for k := r.Range(1, 4); k > 0; k-- {
 			switch r.Intn(8) {
 			case 0, 1:
 				sb.WriteString(shared[r.Intn(len(shared))])
-			case 2:
-				sb.WriteString("@layer " + r.Pick(layerNamesGen) + " { " + r.Pick(sels) + " { color: " + r.Pick(colors) + " } }\n")
+			case 2, 5:
+				sb.WriteString("@layer " + r.Pick(layerNamesGen) + " { " + []string{"a", "b", ".c1"}[r.Intn(3)] + " { color: " + r.Pick(colors) + " } }\n")
 			case 3:
 				sb.WriteString("@media " + []string{"screen", "print", "(color)"}[r.Intn(3)] + " { " + r.Pick(sels) + " { color: " + r.Pick(colors) + " } }\n")
 			case 4:
